@@ -48,11 +48,20 @@ variable (tV : VTok → List Char) (tL : Lab → List Char) (tD : Dat → List C
 /-- a token text is legal inside a command: a token in the sense of `Script.lean`, free of the structural characters -/
 def Clean (t : List Char) : Prop := Tok ws t ∧ ∀ c ∈ t, c ≠ ',' ∧ c ≠ ')' ∧ c ≠ '#' ∧ c ≠ ';'
 
-/-- the token printers are inverted by the token parsers and produce clean texts -/
+variable (dV : VTok → Prop) (dL : Lab → Prop) (dD : Dat → Prop)
+
+/-- the token printers are inverted by the token parsers and produce clean texts, on the domains `dV`, `dL`, `dD`
+    (vertex tokens, label values, data values that have a legal text) -/
 structure Tokens : Prop where
-  v : ∀ x, pV (tV x) = some x ∧ Clean ws (tV x)
-  l : ∀ x, pL (tL x) = some x ∧ Clean ws (tL x)
-  d : ∀ x, pD (tD x) = some x ∧ Clean ws (tD x)
+  v : ∀ x, dV x → pV (tV x) = some x ∧ Clean ws (tV x)
+  l : ∀ x, dL x → pL (tL x) = some x ∧ Clean ws (tL x)
+  d : ∀ x, dD x → pD (tD x) = some x ∧ Clean ws (tD x)
+
+/-- every token of the command is in its domain -/
+def inDom : ACmd Lab Dat → Prop
+  | .add v => dV v
+  | .bind v1 v2 l => dV v1 ∧ dV v2 ∧ dL l
+  | .put v d => dV v ∧ dD d
 
 /-- white space is none of the structural characters -/
 def WsOK : Prop := ∀ c, ws c = true → c ≠ ',' ∧ c ≠ ')' ∧ c ≠ '#' ∧ c ≠ ';' ∧ c ≠ '('
@@ -101,26 +110,26 @@ theorem renderArgs_noparen (hw : WsOK ws) (as : List Arg)
       · exact ih (fun x hx => h x (by simp [hx])) c (by simpa [renderArgs] using hc)
 
 /-- **one command**: parsing the rendering gives the command back -/
-theorem parseCmd_render (hw : WsOK ws) (tk : Tokens ws pV pL pD tV tL tD) (sp : List Char) (hsp : ∀ c ∈ sp, c = ' ')
-    (p0 p1 p2 : Pad) (h0 : p0.ok ws) (h1 : p1.ok ws) (h2 : p2.ok ws) (c : ACmd Lab Dat) :
+theorem parseCmd_render (hw : WsOK ws) (tk : Tokens ws pV pL pD tV tL tD dV dL dD) (sp : List Char) (hsp : ∀ c ∈ sp, c = ' ')
+    (p0 p1 p2 : Pad) (h0 : p0.ok ws) (h1 : p1.ok ws) (h2 : p2.ok ws) (c : ACmd Lab Dat) (hd : inDom dV dL dD c) :
     parseCmd ws pV pL pD (renderCmd tV tL tD sp p0 p1 p2 c) = some c := by
   have argOK : ∀ (p : Pad) (hp : p.ok ws) (t : List Char), Clean ws t →
       (∀ c ∈ (mkArg p t).pre, ws c = true) ∧ (∀ c ∈ (mkArg p t).post, ws c = true) ∧ ∀ c ∈ (mkArg p t).tok, c ≠ ')' :=
     fun p hp t ht => ⟨hp.1, hp.2, fun c hc => (ht.2 c hc).2.1⟩
   cases c with
   | add v =>
-    have cv := (tk.v v).2
+    have cv := (tk.v v hd).2
     have hin := renderArgs_noparen ws hw [mkArg p0 (tV v)] (by
       intro a ha; simp only [List.mem_singleton] at ha; subst ha; exact argOK p0 h0 _ cv)
     have hl := parseLine_render nADD sp (renderArgs [mkArg p0 (tV v)]) (by decide) (by decide) hsp hin
     have ha := args_render ws [mkArg p0 (tV v)] (by simp) (by
       intro a ha; simp only [List.mem_singleton] at ha; subst ha; exact mkArg_ok ws hw p0 h0 _ cv)
     simp only [parseCmd, renderCmd, hl, ha, if_true]
-    simp [mkArg, (tk.v v).1]
+    simp [mkArg, (tk.v v hd).1]
   | bind v1 v2 l =>
-    have c1 := (tk.v v1).2
-    have c2 := (tk.v v2).2
-    have c3 := (tk.l l).2
+    have c1 := (tk.v v1 hd.1).2
+    have c2 := (tk.v v2 hd.2.1).2
+    have c3 := (tk.l l hd.2.2).2
     have hin := renderArgs_noparen ws hw [mkArg p0 (tV v1), mkArg p1 (tV v2), mkArg p2 (tL l)] (by
       intro a ha
       simp only [List.mem_cons, List.mem_nil_iff, or_false] at ha
@@ -138,10 +147,10 @@ theorem parseCmd_render (hw : WsOK ws) (tk : Tokens ws pV pL pD tV tL tD) (sp : 
       · exact mkArg_ok ws hw p2 h2 _ c3)
     have hne : nBIND ≠ nADD := by decide
     simp only [parseCmd, renderCmd, hl, ha, hne, if_false, if_true]
-    simp [mkArg, (tk.v v1).1, (tk.v v2).1, (tk.l l).1]
+    simp [mkArg, (tk.v v1 hd.1).1, (tk.v v2 hd.2.1).1, (tk.l l hd.2.2).1]
   | put v d =>
-    have c1 := (tk.v v).2
-    have c2 := (tk.d d).2
+    have c1 := (tk.v v hd.1).2
+    have c2 := (tk.d d hd.2).2
     have hin := renderArgs_noparen ws hw [mkArg p0 (tV v), mkArg p1 (tD d)] (by
       intro a ha
       simp only [List.mem_cons, List.mem_nil_iff, or_false] at ha
@@ -158,7 +167,7 @@ theorem parseCmd_render (hw : WsOK ws) (tk : Tokens ws pV pL pD tV tL tD) (sp : 
     have hne1 : nPUT ≠ nADD := by decide
     have hne2 : nPUT ≠ nBIND := by decide
     simp only [parseCmd, renderCmd, hl, ha, hne1, hne2, if_false, if_true]
-    simp [mkArg, (tk.v v).1, (tk.d d).1]
+    simp [mkArg, (tk.v v hd.1).1, (tk.d d hd.2).1]
 
 /-! ### the whole script -/
 
@@ -207,7 +216,7 @@ theorem renderArgs_clean (hw : WsOK ws) (as : List Arg)
 
 /-- the text of a rendered command is a legal command text in the sense of `commands_render` -/
 theorem renderCmd_cmdok (hw : WsOK ws) (hup : ∀ c, isUpper c = true → ws c = false)
-    (tk : Tokens ws pV pL pD tV tL tD) (c : ACmd Lab Dat) (f : CmdFmt) (hf : f.ok ws) :
+    (tk : Tokens ws pV pL pD tV tL tD dV dL dD) (c : ACmd Lab Dat) (hd : inDom dV dL dD c) (f : CmdFmt) (hf : f.ok ws) :
     (toCmd tV tL tD c f).ok ws := by
   obtain ⟨h1, h2, h3, h4, h5, h6⟩ := hf
   have clean : ∀ (p : Pad) (hp : p.ok ws) (t : List Char), Clean ws t →
@@ -248,7 +257,7 @@ theorem renderCmd_cmdok (hw : WsOK ws) (hup : ∀ c, isUpper c = true → ws c =
     | add v =>
       have := shape nADD (renderArgs [mkArg f.p0 (tV v)]) (by decide) (by decide) (by decide)
         (renderArgs_clean ws hw _ (by
-          intro a ha; simp only [List.mem_singleton] at ha; subst ha; exact clean f.p0 h3 _ (tk.v v).2))
+          intro a ha; simp only [List.mem_singleton] at ha; subst ha; exact clean f.p0 h3 _ (tk.v v hd).2))
       first | exact this.1 | exact this.2
     | bind v1 v2 l =>
       have := shape nBIND (renderArgs [mkArg f.p0 (tV v1), mkArg f.p1 (tV v2), mkArg f.p2 (tL l)]) (by decide)
@@ -256,9 +265,9 @@ theorem renderCmd_cmdok (hw : WsOK ws) (hup : ∀ c, isUpper c = true → ws c =
           intro a ha
           simp only [List.mem_cons, List.mem_nil_iff, or_false] at ha
           rcases ha with rfl | rfl | rfl
-          · exact clean f.p0 h3 _ (tk.v v1).2
-          · exact clean f.p1 h4 _ (tk.v v2).2
-          · exact clean f.p2 h5 _ (tk.l l).2))
+          · exact clean f.p0 h3 _ (tk.v v1 hd.1).2
+          · exact clean f.p1 h4 _ (tk.v v2 hd.2.1).2
+          · exact clean f.p2 h5 _ (tk.l l hd.2.2).2))
       first | exact this.1 | exact this.2
     | put v d =>
       have := shape nPUT (renderArgs [mkArg f.p0 (tV v), mkArg f.p1 (tD d)]) (by decide) (by decide) (by decide)
@@ -266,28 +275,28 @@ theorem renderCmd_cmdok (hw : WsOK ws) (hup : ∀ c, isUpper c = true → ws c =
           intro a ha
           simp only [List.mem_cons, List.mem_nil_iff, or_false] at ha
           rcases ha with rfl | rfl
-          · exact clean f.p0 h3 _ (tk.v v).2
-          · exact clean f.p1 h4 _ (tk.d d).2))
+          · exact clean f.p0 h3 _ (tk.v v hd.1).2
+          · exact clean f.p1 h4 _ (tk.d d hd.2).2))
       first | exact this.1 | exact this.2
 
 /-- **C14**: whatever the white space, comments, blanks before `(` and padding of the arguments, the script text
     is read back as exactly the abstract program, in order, with no parse error -/
 theorem parseScript_render (hw : WsOK ws) (hup : ∀ c, isUpper c = true → ws c = false)
-    (tk : Tokens ws pV pL pD tV tL tD) (prog : List (ACmd Lab Dat × CmdFmt)) (trail : List Filler)
-    (hf : ∀ x ∈ prog, x.2.ok ws) (ht : ∀ x ∈ trail, x.ok ws) :
+    (tk : Tokens ws pV pL pD tV tL tD dV dL dD) (prog : List (ACmd Lab Dat × CmdFmt)) (trail : List Filler)
+    (hf : ∀ x ∈ prog, x.2.ok ws) (ht : ∀ x ∈ trail, x.ok ws) (hdom : ∀ x ∈ prog, inDom dV dL dD x.1) :
     parseScript ws pV pL pD (renderScript tV tL tD prog trail) = prog.map (fun x => some x.1) := by
   unfold parseScript renderScript
   rw [commands_render ws _ trail (by
     intro c hc
     simp only [List.mem_map] at hc
     obtain ⟨x, hx, rfl⟩ := hc
-    exact renderCmd_cmdok ws pV pL pD tV tL tD hw hup tk x.1 x.2 (hf x hx)) ht]
+    exact renderCmd_cmdok ws pV pL pD tV tL tD dV dL dD hw hup tk x.1 (hdom x hx) x.2 (hf x hx)) ht]
   simp only [List.map_map]
   apply List.map_congr_left
   intro x hx
   obtain ⟨_, h2, h3, h4, h5, _⟩ := hf x hx
   simp only [Function.comp, toCmd]
-  exact parseCmd_render ws pV pL pD tV tL tD hw tk x.2.sp h2 x.2.p0 x.2.p1 x.2.p2 h3 h4 h5 x.1
+  exact parseCmd_render ws pV pL pD tV tL tD dV dL dD hw tk x.2.sp h2 x.2.p0 x.2.p1 x.2.p2 h3 h4 h5 x.1 (hdom x hx)
 
 #print axioms parseScript_render
 end S
